@@ -3,7 +3,8 @@
    ([hooks_of_docs], Engine/HookMeta.v: the harness prints the documents, never a parsed
    weight / event / policy), plus, for every install / upgrade, the direct comparison of what the
    model parses out of each document with the release.Hook records Helm produced
-   (events, weight, delete policies and output-log policies as strings, log-fetch decision). *)
+   (events, weight, delete policies and output-log policies as strings), and the sequence of hook
+   watches and log fetches (outputLogsByPolicy) of the operation with the model's [op_levs]. *)
 From Coq Require Import List String Bool Arith ZArith.
 From Helm Require Export Run.RunEng Engine.HookMeta.
 From Helm Require Import Engine.Types.
@@ -20,7 +21,12 @@ Record parsed := mkParsed {
    the hooks Helm made of them *)
 Record parse_obs := mkParseObs { po_docs : list res; po_hooks : list parsed }.
 
-Record case := mkC12 { k_eng : RunEng.case; k_parse : list parse_obs }.
+(* one non-atomic install / upgrade with hooks enabled and no rejected request: its hook
+   documents, its two events, and the observed sequence of hook watches (with outcome) and
+   log fetches (GetPodList selector, OutputContainerLogsForPodList) *)
+Record log_obs := mkLogObs { lo_docs : list res; lo_pre : event; lo_post : event; lo_levs : list lev }.
+
+Record case := mkC12 { k_eng : RunEng.case; k_parse : list parse_obs; k_logs : list log_obs }.
 
 Definition parsed_of (r : res) : list parsed :=
   match doc_hook r with
@@ -44,7 +50,36 @@ Fixpoint parsed_list_eqb (a b : list parsed) : bool :=
 Definition parse_ok (p : parse_obs) : bool :=
   parsed_list_eqb (flat_map parsed_of (po_docs p)) (po_hooks p).
 
-Definition case_ok (c : case) : bool := RunEng.case_ok (k_eng c) && forallb parse_ok (k_parse c).
+Definition sel_eqb (a b : log_sel) : bool :=
+  match a, b with
+  | LogByLabel x, LogByLabel y | LogByField x, LogByField y => String.eqb x y
+  | _, _ => false
+  end.
+
+Definition lev_eqb (a b : lev) : bool :=
+  match a, b with
+  | LWatch k1 o1, LWatch k2 o2 => String.eqb k1 k2 && Bool.eqb o1 o2
+  | LFetch s1, LFetch s2 => sel_eqb s1 s2
+  | LOut, LOut => true
+  | _, _ => false
+  end.
+
+Fixpoint levs_eqb (a b : list lev) : bool :=
+  match a, b with
+  | [], [] => true
+  | x :: t, y :: u => lev_eqb x y && levs_eqb t u
+  | _, _ => false
+  end.
+
+Definition watches_of (l : list lev) : list (string * bool) :=
+  flat_map (fun e => match e with LWatch k ok => [(k, ok)] | _ => [] end) l.
+
+(* the model's events for the observed watch outcomes = the observed events *)
+Definition log_ok (l : log_obs) : bool :=
+  levs_eqb (op_levs (hooks_of_docs (lo_docs l)) (lo_pre l) (lo_post l) (watches_of (lo_levs l))) (lo_levs l).
+
+Definition case_ok (c : case) : bool :=
+  RunEng.case_ok (k_eng c) && forallb parse_ok (k_parse c) && forallb log_ok (k_logs c).
 
 Fixpoint mismatches_from (i : nat) (cs : list case) : list nat :=
   match cs with
@@ -55,4 +90,4 @@ Fixpoint mismatches_from (i : nat) (cs : list case) : list nat :=
 Definition mismatches := mismatches_from 0.
 
 (* debugging: engine agreement and parse agreement separately *)
-Definition diag12 (c : case) := (RunEng.diag (k_eng c), map parse_ok (k_parse c)).
+Definition diag12 (c : case) := (RunEng.diag (k_eng c), map parse_ok (k_parse c), map log_ok (k_logs c)).
